@@ -584,7 +584,10 @@ func (w *World) argIndexOf(fn *ssa.Function, v ssa.Value, seen map[ssa.Value]boo
 		}
 	case *ssa.Phi:
 		var out []int
-		for _, e := range x.Edges {
+		for i, e := range x.Edges {
+			if w.argSite != nil && !w.edgeCompatible(fn, x.Block().Preds[i], x.Block(), w.argSite) {
+				continue // this alternative belongs to a different function name than the call site
+			}
 			out = append(out, w.argIndexOf(fn, e, seen)...)
 		}
 		return out
@@ -685,7 +688,9 @@ func ruleBArgs(w *World, r *Report) {
 			}
 			n++
 			key := fmt.Sprintf("%s:arg%d", f.Name(), qi+1)
+			w.argSite = c.Block()
 			idx := dedupInts(w.argIndexOf(fn, a, map[ssa.Value]bool{}))
+			w.argSite = nil
 			okAll := len(idx) > 0
 			for _, j := range idx {
 				switch {
@@ -694,6 +699,21 @@ func ruleBArgs(w *World, r *Report) {
 				default:
 					okAll = false
 				}
+			}
+			// optional arguments: only where XPath has them
+			optional := map[string]bool{"substringFunc:arg3": true, "nameFunc:arg1": true, "localNameFunc:arg1": true, "namespaceFunc:arg1": true,
+				"normalizespaceFunc:arg1": true, "stringFunc:arg1": true, "numberFunc:arg1": true, "concatFunc:arg1": true}
+			_ = optional
+			isOpt := false
+			for _, j := range idx {
+				if j == -1 || j == -2 {
+					isOpt = true
+				}
+			}
+			if okAll && isOpt && !w.optionalArgAllowed(f, qi) {
+				r.bad("B-ARITY", key, w.instrPos(c), fmt.Sprintf("argument %d of %s may be omitted (the builder substitutes %s), but XPath requires it: an expression damaged by removing the argument still compiles", qi+1, f.Name(), describeIdx(idx)))
+			} else if okAll {
+				r.ok("B-ARITY", key, w.instrPos(c), "required arguments cannot be omitted (arity test or index fault inside the recover)")
 			}
 			if okAll {
 				r.ok("B-ARGS", key, w.instrPos(c), fmt.Sprintf("built from argument expression %s", describeIdx(idx)))
@@ -745,4 +765,76 @@ func describeIdx(idx []int) string {
 		}
 	}
 	return strings.Join(p, " | ")
+}
+
+
+// optionalArgAllowed: XPath lets the i-th argument of the function(s) bound to
+// this factory be omitted (name(), local-name(), namespace-uri(), string(),
+// number(), normalize-space() apply to the context node; substring's length;
+// concat is variadic).
+func (w *World) optionalArgAllowed(f *ssa.Function, i int) bool {
+	allowed := map[string][]int{"name": {0}, "local-name": {0}, "namespace-uri": {0}, "string": {0}, "number": {0}, "normalize-space": {0}, "substring": {2}, "concat": {0}, "string-length": {0}}
+	for name, fs := range w.funcBindings() {
+		for _, tf := range fs {
+			if w.Prog.FuncValue(tf) == f {
+				for _, j := range allowed[name] {
+					if j == i {
+						return true
+					}
+				}
+			}
+		}
+	}
+	return false
+}
+
+
+// edgeCompatible: the string facts (switch labels) that hold on the edge
+// pred->blk are compatible with those that hold at block site.
+func (w *World) edgeCompatible(fn *ssa.Function, pred, blk, site *ssa.BasicBlock) bool {
+	keys := map[string]bool{}
+	for _, b := range fn.Blocks {
+		if k, _, ok := strTestOf(b); ok {
+			keys[k] = true
+		}
+	}
+	for key := range keys {
+		atSite, k1 := possibleStrings(site, key, 0, map[*ssa.BasicBlock]bool{})
+		if !k1 {
+			continue
+		}
+		// on the edge
+		var onEdge map[string]bool
+		k2 := false
+		if k, c, isTest := strTestOf(pred); isTest && k == key && pred.Succs[0] != pred.Succs[1] {
+			if pred.Succs[0] == blk {
+				onEdge, k2 = map[string]bool{c: true}, true
+			} else {
+				up, kn := possibleStrings(pred, key, 0, map[*ssa.BasicBlock]bool{})
+				if kn {
+					onEdge, k2 = map[string]bool{}, true
+					for s := range up {
+						if s != c {
+							onEdge[s] = true
+						}
+					}
+				}
+			}
+		} else {
+			onEdge, k2 = possibleStrings(pred, key, 0, map[*ssa.BasicBlock]bool{})
+		}
+		if !k2 {
+			continue
+		}
+		common := false
+		for s := range onEdge {
+			if atSite[s] {
+				common = true
+			}
+		}
+		if !common {
+			return false
+		}
+	}
+	return true
 }
